@@ -29,6 +29,9 @@ inductive Reply where
   /-- status 200 but the caller rejects the body (XML/JSON error, `No success`, unexpected message,
       HA state not active); `msg` is the caller's error text (a function of `body` alone) -/
   | fail (body : Str) (msg : Str)
+  /-- status 200, but reading the body ended in an I/O error with text `msg` (e.g. `unexpected EOF`)
+      after `body` had arrived: `httpGet` / `sendRequest` return the partial body AND the error -/
+  | trunc (body : Str) (msg : Str)
   deriving Repr, DecidableEq
 
 def Reply.body : Reply → Str
@@ -36,6 +39,7 @@ def Reply.body : Reply → Str
   | .status _ b => b
   | .ok b => b
   | .fail b _ => b
+  | .trunc b _ => b
 
 def natStr (n : Nat) : Str := (toString n).toList
 
@@ -68,6 +72,7 @@ def keygen (addr user pass : Str) (r : Reply) : List Str × Option Str :=
     | .status c b => some (sApiKey ++ maskPass (statusMsg c b))
     | .ok _ => none
     | .fail _ m => some m
+    | .trunc _ m => some (sApiKey ++ maskPass m)
   (log, err)
 
 /-- `s.urlPrefix = fmt.Sprintf("%s/api/?key=%s&", addr, key)` -/
@@ -82,6 +87,7 @@ def prefixGet (pre uri : Str) (r : Reply) : List Str × Option Str :=
     | .status c b => some (statusMsg c b)
     | .ok _ => none
     | .fail _ _ => none
+    | .trunc _ m => some m
   (log, err)
 
 inductive Log where | login | config | change
@@ -197,6 +203,7 @@ def nsxReqErr (pre : Str) (op method path : Str) : Reply → Option Str
       (if b.isEmpty then [] else '\n' :: b))
   | .ok _ => none
   | .fail _ m => some m
+  | .trunc _ m => some m
 
 /-- NSX requests behind the login: `(op, method, path, log entries written before, entries after success)`. -/
 structure NsxReq where
